@@ -84,6 +84,10 @@ class RefBlockServer(Peer):
             a["body"] += payload
             nblk = num
             rszx = min(szx, self.szx)
+            if self.misbehave and self.misbehave[0] == "ok-own-szx" and num >= self.misbehave[1]:
+                # legal (RFC 7959 section 2.5): the server states its own preference even where it is larger than the size in use;
+                # the client has to carry on with its (smaller) size - the exponent on the wire never grows
+                rszx = self.szx
             if self.reduce_at is not None and nblk >= self.reduce_at and self.reduce_to < rszx:
                 rszx = self.reduce_to
             a["szx"] = min(a["szx"], rszx) if m else a["szx"]
@@ -147,6 +151,11 @@ class RefBlockServer(Peer):
             rep = bytes((b ^ 0x5A) for b in rep)
             etag = b"E2"
             self.changed_served = True
+        if mb and mb[0] in ("b2-408-midway", "b2-503-midway", "b2-plain-midway") and num == mb[1] and num >= 1:
+            # a later block is refused (state expired, service unavailable) or answered by a response without a Block2 option
+            if mb[0] == "b2-plain-midway":
+                return self.reply(src, msg, rcode, ropts, b"plain")
+            return self.reply(src, msg, 136 if mb[0] == "b2-408-midway" else 163, ropts, b"")
         chunk = rep[num * size:(num + 1) * size]
         more = (num + 1) * size < len(rep)
         rnum = num
